@@ -148,6 +148,49 @@ func (l *Lowerer) block(stmts []ast.Stmt, n ast.Node) *Block {
 	return b
 }
 
+// desugarContinue rewrites the statement list of a loop body so that an unlabelled `continue` disappears:
+//   if C { A; continue }; REST   is   if C { A } else { REST }     (if !C { REST } when A is empty)
+//   a trailing `continue` is dropped; statements after a bare `continue` are dead.
+// Only the top level of the body (and the else blocks it builds) is treated; anything else stays opaque.
+func desugarContinue(list []ast.Stmt) []ast.Stmt {
+	isCont := func(s ast.Stmt) bool {
+		b, ok := s.(*ast.BranchStmt)
+		return ok && b.Tok == token.CONTINUE && b.Label == nil
+	}
+	for i, s := range list {
+		if isCont(s) {
+			return list[:i:i]
+		}
+		is, ok := s.(*ast.IfStmt)
+		if !ok || is.Else != nil || is.Init != nil || len(is.Body.List) == 0 || !isCont(is.Body.List[len(is.Body.List)-1]) {
+			continue
+		}
+		then := is.Body.List[:len(is.Body.List)-1]
+		rest := desugarContinue(list[i+1:])
+		var repl ast.Stmt
+		switch {
+		case len(then) == 0 && len(rest) == 0:
+			return list[:i:i]
+		case len(then) == 0:
+			var cond ast.Expr
+			if u, ok := is.Cond.(*ast.UnaryExpr); ok && u.Op == token.NOT {
+				cond = u.X
+			} else if p, ok := is.Cond.(*ast.ParenExpr); ok {
+				cond = &ast.UnaryExpr{OpPos: is.Cond.Pos(), Op: token.NOT, X: p}
+			} else {
+				cond = &ast.UnaryExpr{OpPos: is.Cond.Pos(), Op: token.NOT, X: &ast.ParenExpr{Lparen: is.Cond.Pos(), X: is.Cond, Rparen: is.Cond.End()}}
+			}
+			repl = &ast.IfStmt{If: is.If, Cond: cond, Body: &ast.BlockStmt{Lbrace: is.Body.Lbrace, List: rest, Rbrace: is.Body.Rbrace}}
+		default:
+			repl = &ast.IfStmt{If: is.If, Cond: is.Cond, Body: &ast.BlockStmt{Lbrace: is.Body.Lbrace, List: then, Rbrace: is.Body.Rbrace},
+				Else: &ast.BlockStmt{Lbrace: is.Body.Rbrace, List: rest, Rbrace: is.Body.Rbrace}}
+		}
+		out := append(append([]ast.Stmt{}, list[:i]...), repl)
+		return out
+	}
+	return list
+}
+
 func (l *Lowerer) defVar(id *ast.Ident) *types.Var {
 	if id == nil || id.Name == "_" {
 		return nil
@@ -269,7 +312,7 @@ func (l *Lowerer) stmt(s ast.Stmt) Stmt {
 		if x.Post != nil {
 			lp.Post = l.stmt(x.Post)
 		}
-		lp.Body = l.block(x.Body.List, x.Body)
+		lp.Body = l.block(desugarContinue(x.Body.List), x.Body)
 		return lp
 	case *ast.RangeStmt:
 		lp := &Loop{node: node{x.Pos()}, Stmt: x}
@@ -280,7 +323,7 @@ func (l *Lowerer) stmt(s ast.Stmt) Stmt {
 			lp.Val = l.defVar(id)
 		}
 		lp.Over = l.expr(x.X)
-		lp.Body = l.block(x.Body.List, x.Body)
+		lp.Body = l.block(desugarContinue(x.Body.List), x.Body)
 		return lp
 	case *ast.BranchStmt, *ast.EmptyStmt, *ast.LabeledStmt, *ast.GoStmt, *ast.SendStmt, *ast.SelectStmt:
 		l.opaques++
